@@ -110,7 +110,9 @@ Definition w_succeed (w : world) (e : nat) (site : nat) : world :=
   end.
 Definition w_succeed_all (w : world) (es : list nat) : world := fold_left (fun w e => w_succeed w e 0) es w.
 Definition w_event (w : world) : world * nat := let '(k, e) := new_event (wk w) in (w <| wk := k |>, e).
-Definition w_timeout (w : world) (d : Z) : world * nat := let '(k, e) := timeout (wk w) d in (w <| wk := k |>, e).
+(* env.timeout(d): a negative delay raises ValueError *)
+Definition w_timeout (w : world) (d : Z) : world * nat :=
+  if d <? 0 then (crashw w (CValue 1), 0%nat) else let '(k, e) := timeout (wk w) d in (w <| wk := k |>, e).
 Definition w_any_of (w : world) (es : list nat) : world * nat := let '(k, e) := any_of (wk w) es in (w <| wk := k |>, e).
 
 (* env.process(gen): completion event + Initialize event (URGENT), first block runs when it is popped *)
